@@ -411,9 +411,12 @@ pub fn profile(name: &str, tier: Tier) -> Option<Profile> {
             p.default_cases = if q { 30 } else { 500 };
             p.threads = vec![(1, Range(2, 16)), (1, OneOf(vec![2, 3, 4, 8, 16]))];
             p.first_items = if q { Range(40, 400) } else { Range(40, 900) };
-            p.updates = Range(5, 80);
-            p.rounds = Range(2, 5);
-            p.ntrees = vec![(1, None), (3, Some(Range(2, 12)))];
+            // one- and two-item rounds too: every tree then creates at most one bucket, all of them at the same moment
+            p.updates = Mix(vec![(2, Range(1, 2)), (4, Range(5, 80))]);
+            p.rounds = Range(2, 6);
+            p.ntrees = vec![(1, None), (3, Some(Range(2, 16)))];
+            // small buckets: many single-item children, i.e. many bucket creations
+            p.split = vec![(1, None), (3, Some(Range(1, 4)))];
             p.queries = Range(1, 2);
         }
         // the memory hint changes how, never what
